@@ -1,5 +1,6 @@
 """C03 - rewritten code is the '+' pattern instantiated with what was captured."""
 import fam_rewrite as fr
+import fam_imports as fi
 from vlib import load_known
 
 ASSUME = [
@@ -29,6 +30,15 @@ def run(ctx):
     slots = fr.text_vectors(ctx, "corpus/slots/vectors.json", "C03")
     results += fr.replay_and_judge(ctx, "slots", slots, None, shards=4)
     results += fr.replay_and_judge(ctx, "inter", fr.text_vectors(ctx, "corpus/inter/vectors.json", "C03"), None, shards=8)
+    # a metavariable bound by an import line of the patch (the name of the import) and mentioned by the '+' code:
+    # scenarios of spec/Imports.tla whose '-'/context imports are named by a metavariable, judged by TraceImports
+    scs = fi.emit(ctx, "edits", ["x/p", "x/q"], ["x/o"], 2, 1 if quick else 8, 2 if quick else 4, "c03-imports")
+    scs = [s for s in scs if s["holds"] == "1" and any(pi["form"] == "meta" and pi["side"] in ("ctx", "minus") for pi in s["pimps"])]
+    imeta, ilines = fi.run_cases(ctx, scs, "c03i", allow_ref=True)
+    ist = fi.judge(ctx, imeta, ilines, fi.validate(ctx, "c03i", imeta, ilines), {"C03_PlusUnderCapturedName"}, {})
+    iplus = sum(1 for m in imeta if m["code"][3] and m["obs"]["changed"])
+    if iplus == 0:
+        raise fr.Infra("vacuous import run: no '+' code through an import metavariable was written")
     st = fr.classify(ctx, results, known, accept_classes=("wrongrepl", "error", "missed"))
     states, trans = fr.mc_counts(ctx)
     cov = dict(states=states, transitions=trans, traces_validated_against_impl=st["cases"],
@@ -36,5 +46,15 @@ def run(ctx):
                evaluations=st["cases"], distinct_nontrivial=st["nontrivial"], sites_judged=st["sites"],
                exhaustive=False, universe_pairs=tot, slot_vectors=len(slots), model_drift_cases=st["drift"],
                rule="pairs of the expr and meta universes (replacements use, duplicate, reorder, drop metavariables) x all subjects, each subject at nine syntactic positions of one file (every site has its own binding); plus slot-admissibility vectors; non-trivial = at least one instance in the input",
-               cases_failing=st["failing"], sites_failed=st["sites_failed"])
+               cases_failing=st["failing"], sites_failed=st["sites_failed"],
+               import_metavariable_cases=ist["judged"], import_metavariable_plus_calls_judged=iplus)
     return ctx.finish("model_checking", cov, ASSUME)
+
+
+def replay(ctx, path):
+    import json
+    r = json.load(open(path))
+    if r.get("kind") == "imports":
+        return fi.replay(ctx, path, {"C03_PlusUnderCapturedName"}, "C03")
+    print("replay of this record kind re-runs the quick tier")
+    return run(ctx)
